@@ -57,6 +57,52 @@ PROPS['C12'] = dict(
     not_decided=['sequences of lines end-to-end against an independent model (composition of the per-function contracts is the contract-level argument)'],
 )
 
+_CURVE_TRUST = COMMON_TRUST + [
+    'Pos::length (f64 sqrt) is replaced in the curve harnesses: by a deterministic function of its argument where purity is checked, by "any finite value >= 0, 0 for the zero vector" where length bookkeeping is checked; the value of the Euclidean norm itself is not verified',
+]
+
+PROPS['C16'] = dict(
+    category='other',
+    technique='Kani harnesses on the real calculate_length with a contract-style stand-in for Pos::length (bounded in the number of path vertices)',
+    level_text='bounded stand-in: calculate_length on unadjusted paths of 0..3 vertices (4 in the thorough tier), every finite f32 coordinate and every finite requested length > 0: total distance exactly L with the two stated exceptions, lengths start at 0 / never decrease / stay finite, truncation keeps path.len() <= lengths.len()',
+    level_note='assumed: Euclidean length is finite, >= 0 and 0 for identical points (its numeric value and the geometry of the natural curve are C17, not applicable); Catmull simplification bookkeeping and longer paths not decided',
+    verus=[], kani=['curve.kc'],
+    only_prefix=['c16_'],
+    kani_functions=['src/section/hit_objects/slider/curve.rs :: fn calculate_length'],
+    explanation='see level_text; per-obligation statements in coverage.samples[].states',
+    trusted_base=_CURVE_TRUST, assumptions=['requested length finite and > 0 (L <= 0 and non-finite L are outside the statement)'],
+    not_decided=['paths longer than the bound', 'Catmull simplification leaves the total unchanged (calculate_subpath bookkeeping)', 'the cut point is interpolated on the segment it falls in (value of the re-projected end vertex: float products)'],
+)
+
+PROPS['C18'] = dict(
+    category='other',
+    technique='Kani two-history harnesses on the real Curve / BorrowedCurve / SliderPath code: compute A then B on shared buffers and compare bit-for-bit with B on fresh buffers; cache wiring proved loop-free',
+    level_text='bounded stand-in for buffer independence (histories of two computations over single LINEAR segments, empty list included; multi-segment lists in the thorough tier) over all finite f32 coordinates; SliderPath cache fill / invalidation proved (Kani, loop-free, every requested length)',
+    level_note='assumed: Pos::length is a deterministic function of its argument; Bezier / Catmull / circular-arc approximators are not exercised by the histories (float-heavy, out of CBMC reach)',
+    verus=[], kani=['curve.kc'],
+    only_prefix=['c18_'],
+    kani_functions=['src/section/hit_objects/slider/curve.rs :: fn calculate_path', 'src/section/hit_objects/slider/curve.rs :: fn calculate_length',
+                    'src/section/hit_objects/slider/curve.rs :: Curve::new / BorrowedCurve::new', 'src/section/hit_objects/slider/path.rs :: impl SliderPath (curve, curve_with_bufs, borrowed_curve, control_points_mut, expected_dist_mut, clear_curve)'],
+    explanation='see level_text; per-obligation statements in coverage.samples[].states',
+    trusted_base=_CURVE_TRUST, assumptions=[],
+    not_decided=['histories longer than two computations', 'non-linear segment kinds (bezier buffers are read only at indices written in the same call: not verified)'],
+)
+
+PROPS['C19'] = dict(
+    category='other',
+    technique='Kani contracts on the real accessor functions: loop-free full-domain harness for the progress clamp, bounded harnesses (curve size) for index search and interpolation',
+    level_text='progress_to_dist proved (Kani, every f64 progress and distance: <= 0 gives 0 x dist, >= 1 gives dist, clamp before product); interpolate_vertices / idx_of_dist / position_at(progress <= 0) bounded stand-ins on curves of <= 3-4 vertices over every f64 value and every usize index',
+    level_note='not decided (and deliberately not asserted): the 1-Lipschitz claim, position at progress 1 is the last point, and position at a vertex length is that vertex hold only up to f32 rounding of p0 + (p1 - p0) * w',
+    verus=[], kani=['curve.kc'],
+    only_prefix=['c19_'],
+    kani_functions=['src/section/hit_objects/slider/curve.rs :: fn progress_to_dist', 'src/section/hit_objects/slider/curve.rs :: fn dist',
+                    'src/section/hit_objects/slider/curve.rs :: fn idx_of_dist', 'src/section/hit_objects/slider/curve.rs :: fn interpolate_vertices',
+                    'src/section/hit_objects/slider/curve.rs :: fn position_at'],
+    explanation='see level_text; per-obligation statements in coverage.samples[].states',
+    trusted_base=COMMON_TRUST, assumptions=[],
+    not_decided=['Lipschitz bound between two progress values', 'exactness at progress 1 and at vertex lengths (float rounding)'],
+)
+
 NOT_APPLICABLE = {
     'C02': 'whole-text round trip through core::fmt float printing and dec2flt: no contract on one function links encode output to decode input, and neither verifier executes fmt/parse on symbolic values; the expressible codec-pair lemmas are decided under C11/C13/C14/C04',
     'C03': 'same as C02 (edited values travel through write! and str::parse); the first-colon rule it singles out is a contract on KeyValue::parse decided under C11',
